@@ -236,7 +236,7 @@ class Check:
             replay = os.path.join(VERIF, 'replays', '%s-%s-%d.json' % (self.pid, self.tier, self.seed))
             with open(replay, 'w') as f:
                 json.dump({'property': self.pid, 'tier': self.tier, 'seed': self.seed,
-                           'violations': self.violations[:50]}, f, indent=1, default=str)
+                           'violations': self.violations[:(100000 if os.environ.get('VERIF_ALLVIOL') else 50)]}, f, indent=1, default=str)
             for v in self.violations[:10]:
                 log('  violation: %s :: %s' % (v['key'], v['desc']))
             print('VIOLATION property=%s replay=%s' % (self.pid, replay))
